@@ -9,6 +9,13 @@
    Not carried by these theorems (assumption A-fs): that std::fs, Path::join, normpath and glob behave like
    the tree functions l_* of the model (symlinks, permissions, non-UTF-8 names, concurrent modification,
    I/O errors other than file/directory conflicts are outside the model); reached only by the correspondence.
+   Also outside (review r4, C12-4): the NAME LIMITS of a real file system.  [plain] / [plain_name] / [plainP] accept every
+   non-empty component other than "." and ".." without '/', so the model (and [wf_layer]) admits components that contain
+   NUL or are longer than NAME_MAX (255 bytes on the usual Unix file systems) and paths longer than PATH_MAX; the real
+   write("a\0b") = WriteError(.. unexpected NUL byte), write(<300 x 'x'>) = WriteError(.. File name too long), where the
+   model answers Ok.  These are "I/O errors other than file/directory conflicts": the success criteria below
+   (C12_write_ok_iff, C12_create_dir_ok_iff) hold for components without NUL of at most 255 bytes (what the
+   correspondence generates).
 
    Statement discipline: [C12_write_fail] is weaker than DESIGN's "fs_write = Err -> S' = S" because that
    is false of the code: for a path with a trailing '/' the missing ancestor directories stay created in
@@ -148,7 +155,9 @@ Section Codec.
     exists s, fs_resolve S' p loc = FOk (Some (length (layers S') - 1, s))%nat.
   Proof. exact (queries_after_write compress decompress). Qed.
 
-  (* the stored bytes are the codec's output for names with the compressed suffix, the payload itself otherwise *)
+  (* the stored bytes are the codec's output for names with the compressed suffix, the payload itself otherwise.
+     UNFOLDING LEMMA (proof: reflexivity): it restates the definition of [encode_by_name] for the reader and establishes
+     nothing beyond "the model is written that way"; what ties it to the code is the correspondence (stored files are compared). *)
   Theorem C12_stored_form : forall S p b,
     encode_by_name compress S p b =
       if is_compressed (c_comp (conf S)) p then lift_codec (compress (c_comp (conf S)) b) else FOk b.
@@ -272,7 +281,11 @@ Theorem C12_search_top_spec : forall P ls i L,
   nth_error ls i = Some L /\ P L = true /\ (forall j L', (i < j)%nat -> nth_error ls j = Some L' -> P L' = false).
 Proof. exact search_top_some. Qed.
 
-(* the typed helpers are the byte-level read / write composed with the codec configured for the game *)
+(* the typed helpers are the byte-level read / write composed with the codec configured for the game.
+   UNFOLDING LEMMA (C12_typed_helpers; proof: the configuration table + `repeat split`): the model's helpers are DEFINED as
+   that composition, as the Rust helpers (layered_filesystem.rs:364-455) literally are; the only content is that the
+   endianness / text format they pass are the ones of the specification table [spec_game].  The sentence of the property
+   is carried by the model text + the correspondence stream typed-e2e, and by the C12_e2e_* round trips below. *)
 Section Typed.
   Variable compress decompress : cfmt -> bytes -> outcome bytes.
   Variables BinA TextA ArcA Tex : Type.
@@ -410,7 +423,9 @@ From Mila Require Model.BinArchive Model.BinFormat Model.TextMap Model.TextForma
   Proofs.TextFormatWrite Proofs.TextFormatRoundTrip Proofs.TextBinBridge Proofs.ArcProofs Proofs.TexDecode.
 
 (* each helper = byte-level read + real parser with the CONFIGURED endianness / text format, or real serializer (with the
-   parameters stored in the archive value) + byte-level write *)
+   parameters stored in the archive value) + byte-level write.
+   UNFOLDING LEMMAS (C12_e2e_helpers_unfold, C12_e2e_same_codec; proofs by reflexivity): they display the definitions of
+   Model/FsTyped.v so that the statements below can be read without it; they prove nothing about the code. *)
 Theorem C12_e2e_helpers_unfold : forall mc md S p loc,
   read_archive md S p loc = fbind (read_file md S p loc) (fun b => lift_parse (BinFormat.from_bytes (c_endian (conf S)) b)) /\
   read_text_archive md S p loc = fbind (read_file md S p loc) (fun b => lift_parse (parse_text (c_text (conf S)) (c_endian (conf S)) b)) /\
@@ -454,7 +469,8 @@ Theorem C12_e2e_typed_read_top_wins : forall md A (parse : bytes -> outcome A) S
      fbind (decode_by_name (lz_decompress md) S p raw) (fun b => lift_parse (parse b)) = r).
 Proof. exact (@typed_read_top_wins). Qed.
 
-(* (a) write_archive -> read_archive: the archive read back is related to the written one exactly as in C01_round_trip *)
+(* (a) write_archive -> read_archive: the archive read back is related to the written one exactly as in C01_round_trip.
+   C12_e2e_same_archive_is_C01 is an UNFOLDING LEMMA (proof `fun H => H`): it spells out the definition [same_archive]. *)
 Theorem C12_e2e_same_archive_is_C01 : forall a a' : BinArchive.archive,
   same_archive a a' <->
   (BinArchive.a_endian a' = BinArchive.a_endian a /\ BinArchive.a_cstrs a' = [] /\
@@ -637,7 +653,8 @@ Theorem C12_e2e_write_text_archive_lower_untouched : forall mc S p a loc S' r,
   conf S' = conf S /\ lng S' = lng S /\ length (layers S') = length (layers S) /\ removelast (layers S') = removelast (layers S).
 Proof. exact write_text_archive_lower_untouched. Qed.
 (* success: the top layer holds at the addressed location a valid LZ10 / wrapped LZ11 stream of the IMAGE (compressed name) or
-   the image itself, directories at its ancestors, and is unchanged everywhere else *)
+   the image itself, directories at its ancestors, and is unchanged everywhere else.
+   C12_e2e_top_layer_effect_is is an UNFOLDING LEMMA (proof `fun H => H`): it spells out the definition [top_layer_effect]. *)
 Theorem C12_e2e_top_layer_effect_is : forall S S' pp c,
   top_layer_effect S S' pp c <->
   (pp <> [] /\ layers S <> [] /\
@@ -692,7 +709,8 @@ Theorem C12_e2e_write_frame_read : forall compress decompress S q b locq S' r p 
   (forall s' qq trq, fs_addr S q locq = FOk (s', (qq, trq)) -> qq <> fst a) ->
   fs_read decompress S' p loc = fs_read decompress S p loc.
 Proof. exact write_frame_read. Qed.
-(* [writes_elsewhere S pp o]: o is a read, or a (typed) write whose addressed location is not pp *)
+(* [writes_elsewhere S pp o]: o is a read, or a (typed) write whose addressed location is not pp.
+   UNFOLDING LEMMA (proof `fun H => H`): it spells out the definition. *)
 Theorem C12_e2e_writes_elsewhere_is : forall S pp o,
   writes_elsewhere S pp o <->
   match o with
